@@ -12,7 +12,7 @@ out=$src/verify.txt
 git -C /repo worktree add -q --detach $wt HEAD || exit 3
 cd $wt
 demo=$(ls $src/demo*_test.go $src/demo*.go 2>/dev/null | head -1)
-place=$(head -1 "$demo" | sed -n 's|^// place in: *||p' | tr -d ' ')
+place=$(head -1 "$demo" | sed -n 's|^// place in: *||p' | awk '{print $1}' | tr -d '(;,')
 [ -z "$place" ] && place=.
 case "$place" in .*|module*|root*) place=. ;; esac
 echo "demo=$demo place=$place" >> $out
@@ -25,6 +25,7 @@ for i in 1 2; do
 done
 cp "$demo" $place/zz_seed_demo_test.go
 TAGS=""; grep -q "go:build verif" "$demo" && TAGS="-tags verif"
+head -1 "$demo" | grep -q -- "-race" && TAGS="$TAGS -race"
 (cd $place && go test $TAGS -vet=off -count=1 -timeout 10m -run 'Demo|Seed' . > $src/verify-demo-with.log 2>&1); echo "demo with change: exit $?" >> $out
 git checkout -q -- . 
 (cd $place && go test $TAGS -vet=off -count=1 -timeout 10m -run 'Demo|Seed' . > $src/verify-demo-without.log 2>&1); echo "demo without change: exit $?" >> $out
